@@ -126,6 +126,7 @@ def main(argv=None):
         pending = list(jobs)
         reports = []
         crashes = []
+        timed_out_violations = []
         while pending or running:
             while pending and len(running) < args.jobs:
                 j = pending.pop(0)
@@ -139,7 +140,14 @@ def main(argv=None):
                     if time.time() - ts > limit:
                         p.kill()
                         p.wait()
-                        harness_errors.append("%s shard %d: time limit of %.0fs hit (inconclusive)" % (j["name"], j["shard"], limit))
+                        partial = j["out"] + ".partial"
+                        if os.path.exists(partial):
+                            with open(partial) as f:
+                                pr = json.load(f)
+                            timed_out_violations.append(pr)
+                            print("note: %s shard %d hit the time limit of %.0fs while shrinking; its unshrunk finding is reported" % (j["name"], j["shard"], limit))
+                        else:
+                            harness_errors.append("%s shard %d: time limit of %.0fs hit (inconclusive)" % (j["name"], j["shard"], limit))
                     else:
                         still.append((j, p, ts))
                     continue
@@ -199,6 +207,12 @@ def main(argv=None):
                 size = len(core.canon_json(v["case"]))
                 if sig not in violations or size < violations[sig][0]:
                     violations[sig] = (size, r["family"], v["case"], v["failures"])
+        for pr in timed_out_violations:
+            for v in pr["violations"]:
+                sig = (pr["family"],) + tuple(v["signature"])
+                size = len(core.canon_json(v["case"]))
+                if sig not in violations or size < violations[sig][0]:
+                    violations[sig] = (size, pr["family"], v["case"], v["failures"])
         for j, sig, case in crashes:
             key = (j["name"], "crash", "signal %d" % sig)
             violations[key] = (0, j["name"], case, [{"kind": "crash", "site": j["name"], "tags": {},
